@@ -51,7 +51,14 @@ def main():
                   "baseline_off_cmd": "cd /repo && /venv/bin/python -m pytest -ra -q -p no:cacheprovider --timeout=900 --continue-on-collection-errors",
                   "source_commits": [], "add_only": True},
         "engines": [
-            {"name": "history", "path": "sim/engine_history.py", "serves_properties": [p for p in ids if p in PROPS and PROPS[p]["engine"] == "history"], "kind_free_text": "solver-history machine: seeded op/fault histories on real frontends, enumeration reference, fork-confirmed minimised replays"},
+            {"name": n, "path": p_, "serves_properties": [q for q in ids if q in PROPS and PROPS[q]["engine"] == n], "kind_free_text": t}
+            for n, p_, t in [
+                ("history", "sim/engine_history.py", "solver-history machine: seeded op/fault/restart histories on real frontends, enumeration reference, fork-confirmed minimised replays"),
+                ("values", "sim/engine_values.py", "value-extraction histories (wide BV / FP / strings) with an independent-Z3 oracle"),
+                ("hashcons", "sim/engine_hashcons.py", "construction / GC / pickle event histories over harness-owned references"),
+                ("gcguard", "sim/engine_gcguard.py", "baton thread scheduler over the real GC guard, line and bytecode pre-emption"),
+                ("threads", "sim/engine_threads.py", "baton thread scheduler over full-stack solver histories, per-thread oracles, context-confinement monitor"),
+            ]
         ],
         "checks": checks,
         "not_applicable": na,
